@@ -141,7 +141,16 @@ class Evaluator:
             if n.id in ('list', 'tuple', 'int', 'str', 'dict', 'bool', 'set'):
                 return {'list': list, 'tuple': tuple, 'int': int, 'str': str, 'dict': dict, 'bool': bool, 'set': set}[n.id]
             try:
-                return self.folder.eval(n, self.mod, None, self.cls)
+                v_ = self.folder.eval(n, self.mod, None, self.cls)
+                if type(v_).__name__ == 'FuncRef':
+                    v_ = v_.func
+                if type(v_).__name__ == 'Func' and hasattr(v_, 'node') and isinstance(v_.node, ast.FunctionDef):
+                    sub = Evaluator(self.ctx, v_.mod, None)
+                    for k in ('effects', 'on_yield'):
+                        if hasattr(self, k):
+                            setattr(sub, k, getattr(self, k))
+                    return MiniFunc(sub, v_.node, {}, v_.short)
+                return v_
             except NotConst:
                 # a module-level function of the analysed source
                 fn_ = getattr(self.mod, 'funcs', {}).get(n.id)
@@ -452,6 +461,14 @@ class Evaluator:
                 return self.imt(kw.get('token'), kw.get('i'), kw.get('m'), kw.get('t'))
             if f.id in ('str', 'bool', 'int'):
                 return {'str': str, 'bool': bool, 'int': int}[f.id](*args)
+            # a module-level function of the analysed source (a helper that builds a predicate, say)
+            try:
+                fv = self.ev(f, env)
+            except (Unsupported, Unknown, NotConst):
+                fv = None
+            if isinstance(fv, MiniFunc):
+                a2, kw = self._args(n, env)
+                return fv(*a2, **kw)
             raise Unsupported(f'call {f.id}')
         if isinstance(f, ast.Attribute):
             # token.match(...)
